@@ -791,7 +791,15 @@ def _run_http_exchange_turn(
         resp_buf = BytesIO()
         exchange_external_bytes = 0
         with new_ipc_stream(resp_buf, output_schema) as writer:
-            exchange_external_bytes = _flush_collector(writer, out, app._server.external_config)
+            # The pre-flight above only sees the data batch's buffer size; the
+            # serialized payload (framing + log batches) is larger.  Hand the cap
+            # down so an upload that does not fit is refused before it is made.
+            exchange_external_bytes = _flush_collector(
+                writer,
+                out,
+                app._server.external_config,
+                max_external_bytes=app._max_externalized_response_bytes,
+            )
 
         # Wire body cap — checked post-flush since BytesIO writes are free.
         try:
@@ -1070,7 +1078,17 @@ def _run_http_producer_turn(
                         _current_response_status.set(HTTPStatus.INTERNAL_SERVER_ERROR)
                         _write_error_batch(writer, schema, overshoot, server_id=server_id)
                         break
-                cumulative_external_bytes += _flush_collector(writer, out, app._server.external_config)
+                # The pre-flight only sees the data batch's buffer size, and
+                # this path has no post-flush backstop: hand down what is left
+                # of the cap so the exact payload is checked before the upload.
+                cumulative_external_bytes += _flush_collector(
+                    writer,
+                    out,
+                    app._server.external_config,
+                    max_external_bytes=(
+                        None if max_external_bytes is None else max(0, max_external_bytes - cumulative_external_bytes)
+                    ),
+                )
                 if out.finished:
                     break
                 cumulative_bytes = out.total_data_bytes
